@@ -391,9 +391,12 @@ CHECKS = {
                  "message AND (a spoof or a duplicate-id connect or an unknown addressee); distinct by history."),
         "assumptions": ["deliveries on loopback complete within the 3 s barrier / 150 ms final window"],
         "units": [
-            {"name": "srv", "pkg": "./internal/verifsrv", "run": "^TestVerifC10", "binaries": ["thruserv"],
+            {"name": "srv", "pkg": "./internal/verifsrv", "run": "^TestVerifC10Routing$", "binaries": ["thruserv"],
              "quick": {"checks": 60, "shards": 8, "timeout": 900},
              "thorough": {"checks": 700, "shards": 16, "timeout": 3400}},
+            {"name": "flood", "pkg": "./internal/verifsrv", "run": "^TestVerifC10Flood$", "binaries": ["thruserv"],
+             "quick": {"checks": 6, "shards": 4, "timeout": 900},
+             "thorough": {"checks": 30, "shards": 6, "timeout": 3400}},
         ],
     },
     "C16": {
